@@ -48,8 +48,8 @@ CHECKS = {
                       "Programs whose set tasks throw tagged exceptions on inline and queued paths; exception ledger: every delivered tag was thrown, none delivered twice, a wait that observes completion of a set with a captured exception rethrows, none rethrown without a capture, barrier intact.",
                       [e1("pool", "prog")], "§4 C05"),
     "C06": pool_check("Nested waits never deadlock through pool starvation",
-                      "Acyclic nesting programs (tasks creating child sets / parallel_for and waiting, depth <= 3, heavy and light costs, idle phases so workers park) on pools of 0-6 threads; termination oracle: explorer deadlock report or fair-schedule livelock confirmation is a violation, budget overrun is inconclusive.",
-                      [e1("pool", "prog")], "§4 C06"),
+                      "Acyclic nesting programs (tasks creating child sets / parallel_for and waiting, depth <= 3, heavy and light costs, idle phases so workers park) on pools of 0-6 threads; termination oracle: explorer deadlock report or fair-schedule livelock confirmation is a violation, budget overrun is inconclusive. Second part: waits on Futures (get / wait / timed waits from 1-3 threads on futures of every scheduler and launch policy, with the pool's workers gated so that only the waiter can run the functor): the same termination oracle.",
+                      [e1("pool", "prog"), dict(harness="future", variant="dsched", part="fut", prop="C18", quick=2500, thorough=80000)], "§4 C06"),
     "C07": pool_check("Submissions to an idle pool start without the sleep backstop",
                       "All workers parked (virtual sleep, checked), one producer submits by one of 12 paths; virtual-time oracle: if the explorer has to jump the clock to a worker's idle-sleep deadline before all submitted work has started, the start depended on the backstop. Exact, no wall clock. Failures are classified by where the unstarted work sat (hook H2).",
                       [e1("pool", "idle")], "§4 C07",
